@@ -43,7 +43,6 @@ class Immutable:
 
         temp = []
         for k, v in kwargs.items():
-            temp.append(type(v))
             temp.append(v)
             super().__setattr__(k, v)
         super().__setattr__('_hash', hash(tuple(temp)))
